@@ -51,7 +51,7 @@ static void vf_xgetbv(vf_regs_t *R)
                 R->rax = vf_nd32(); R->rdx = vf_nd32();
         }
 }
-static void vf_ret(int sp) { if (sp != 0) g_unbalanced = 1; }
+static void vf_ret(int sp, vf_regs_t *R) { (void) R; if (sp != 0) g_unbalanced = 1; }
 static void vf_pause(void) {}
 
 /* ISA levels an implementation family needs */
